@@ -104,6 +104,18 @@ def gen(rng, tier):
                            meta={"why": "a valid peer key whose shared secret %s (non-zero) was refused" % q.hex()}))
         cs.append(Case("scalarmult %s %s" % (hx(sk), hx(peer)), cls="scalarmult/half-zero-output", expect="ok " + hx(q)))
         cs.append(Case("precalc %s %s" % (hx(peer), hx(sk)), cls="precalc/half-zero-secret"))
+    # the caller's OWN public key is hashed into the session keys exactly as given (libsodium does not recompute it): pairs whose
+    # public half is not base·secret — another encoding of the same point (high bit set), or unrelated bytes (`from_slices` checks nothing)
+    for i in range(12 if tier == "quick" else 200):
+        csk, ssk = rbytes(rng, 32), rbytes(rng, 32)
+        cpk, spk = refs.x25519_base(csk), refs.x25519_base(ssk)
+        hb = bytearray(cpk); hb[31] |= 0x80
+        for own in (bytes(hb), rbytes(rng, 32)):
+            cs.append(Case("kx_client %s %s %s" % (hx(own), hx(csk), hx(spk)), cls="kx/own-public-key-not-derived"))
+            cs.append(Case("kx_server %s %s %s" % (hx(own), hx(csk), hx(spk)), cls="kx/own-public-key-not-derived"))
+        hs = bytearray(spk); hs[31] |= 0x80
+        cs.append(Case("kx_client %s %s %s" % (hx(cpk), hx(csk), hx(bytes(hs))), cls="kx/peer-high-bit"))
+        cs.append(Case("kx_server %s %s %s" % (hx(spk), hx(ssk), hx(bytes(hb))), cls="kx/peer-high-bit"))
     for u in us:
         sk = rbytes(rng, 32)
         pk = refs.x25519_base(sk)
